@@ -428,9 +428,11 @@ def check(ctx):
              'stored header %s' % B_.describe(hh, 8))
     for setter, attr in (('_set_port', 'self._port'), ('_set_channel', 'self._channel')):
         f = pkc.method(setter)
-        okc = any(isinstance(s, ast.Assign) and norm(s.targets[0]) == attr and norm(s.value) == f.params[1] for s in walk_own(f.node)) and \
-            any(method_call(c, '_update_header') for c in walk_own(f.node))
-        ctx.inst('R4', f, 'setter-updates-header', okc, '%s must store the value and refresh the header' % setter)
+        gst = cfg_of(f)
+        stn = [n for n in gst.nodes if n.kind == 'stmt' and isinstance(n.ast, ast.Assign) and norm(n.ast.targets[0]) == attr and norm(n.ast.value) == f.params[1]]
+        upn = [n for n, c in gst.find(lambda q: method_call(q, '_update_header'))]
+        okc = len(stn) == 1 and len(upn) >= 1 and all(gst.dominates(stn[0], u) for u in upn) and ('n', upn[-1].id) in (gst.dom().get(('n', gst.exit.id)) or ())
+        ctx.inst('R4', f, 'setter-updates-header', okc, '%s must store the value and THEN refresh the cached header byte (the drivers transmit pk.header, not get_header())' % setter)
     props = {k: norm(v) for k, v in pkc.consts.items()}
     ctx.inst('R4', (ST, 'CRTPPacket'), 'properties', props.get('port') == 'property(_get_port, _set_port)' and
              props.get('channel') == 'property(_get_channel, _set_channel)', 'port/channel properties: %s' % {k: props.get(k) for k in ('port', 'channel')})
